@@ -157,4 +157,14 @@ PROPS["C08"] = {
     "assumptions": [],
 }
 
+PROPS["C09"] = {
+    "modules": ["Foundation.Proofs.C09"],
+    "level_text": "Machine-checked on a two-ledger model with asset lists (repeated groups, both read semantics): begin is all-or-nothing (sequential debit = per-group totals; empty list, existing id, negative or any under-funded asset refuse everything); cancel only by the creator at/after the timeout, refunding every asset; the answered copy can be cancelled by nobody; wrong keys and completions of absent records are refused, a successful completion had the right key; release_once_partial: under the documented order (origin cancelled only for an id the robot has abandoned) at most one of refund/release happens. The unrestricted exactly-once statement is FALSE of the code: two proved counterexamples (creator cancels after the timeout and still completes in the destination; a group listed twice is credited once by the direct completion) are listed as known findings and detected on the implementation by the judge. Tied to the code by random and directed histories on two real chaincode instances with both peer clocks controlled.",
+    "level_note": "Trusted: Lean kernel + 3 axioms; sha3 preimage resistance; committed-read semantics of a real peer as implemented by the simulated peer; per-group value conservation over both channels is monitored by the judge on the implementation's dumps but proved only for the single swap (C08). Known findings (not repaired: protocol-level): cancel_then_done, dup_group_direct.",
+    "trusted_base": ["core/bc_multiswap.go, core/multiswap/multiswap.go modelled by Foundation.MultiSwap.step (two read semantics)"],
+    "hypotheses": ["release_once_partial: the origin is cancelled only when no answered copy exists or can still be created (robot abandoned the id)"],
+    "not_modelled": ["RobotDone on the destination copy", "OnMultiSwapDoneEvent listener"],
+    "assumptions": [],
+}
+
 NOT_APPLICABLE = {}
